@@ -13,9 +13,36 @@ RULE = {
 }
 
 
+def run_pool(job):
+    """the shell pool from several threads under the deterministic scheduler (separate process: it patches mo_threads)"""
+    import os
+    import subprocess
+    from . import detsched as ds
+    env = dict(os.environ)
+    env["PYTHONPATH"] = ds.REPO + os.pathsep + lean_audit.VERIF
+    res = {"evaluations": 0, "transitions": 0, "context_switches": 0, "traces_validated": 0, "shapes": {},
+           "distinct": [], "corr_fail": [], "mon_fail": [], "known": [], "samples": [], "extra": {}}
+    rp = {"model": "m9-pool", "job": {"seed": job["seed"], "n": job["n"]}}
+    p = subprocess.run(["timeout", "-s", "KILL", "300", "/venv/bin/python", "-m", "harness.m9_pool", str(job["seed"]), str(job["n"])],
+                       cwd=ds.REPO, env=env, stdout=subprocess.PIPE, stderr=subprocess.DEVNULL)
+    line = [l for l in p.stdout.decode("utf8", "replace").splitlines() if l.startswith("M9POOL ")]
+    if not line:
+        return {"infra_error": "concurrent pool exploration (seed %d) produced no result" % job["seed"]}
+    out = json.loads(line[-1][7:])
+    res["evaluations"] = out["cases"]
+    res["transitions"] = out["steps"]
+    res["context_switches"] = out["switches"]
+    res["shapes"]["pool-concurrent"] = out["cases"]
+    res["extra"]["pool_concurrent_runs"] = out["cases"]
+    res["distinct"] = [hashlib.sha1(("pool %d %d" % (job["seed"], i)).encode()).hexdigest()[:16] for i in range(out["cases"])]
+    for v in out["viol"]:
+        res["mon_fail"].append({"msg": v["msg"], "replay": dict(rp, scenario=v["scenario"], run_seed=v["run_seed"]), "signature": None})
+    return res
+
+
 def make_jobs(prop, tier, seed):
     n = 6 if tier == "quick" else 32
-    jobs = []
+    jobs = [{"kind": "pool", "prop": prop, "seed": seed * 31 + j, "n": 40} for j in range(2 if tier == "quick" else 12)]
     for j in range(n):
         jobs.append({"kind": "explore", "prop": prop, "seed": seed * 1000003 + j, "pf": 60, "cmds": 14, "threads": 3 + j % 2, "pool": 25,
                      "findings": j == 0})
@@ -30,6 +57,15 @@ def search_jobs(prop, tier, seed, corr_fail):
 def run_job(job):
     from . import m9_command
     prop = job["prop"]
+    if job["kind"] == "pool":
+        return run_pool(job)
+    if job["kind"] == "replay" and (job["replay"].get("replay") or job["replay"]).get("model") == "m9-pool":
+        rp = job["replay"].get("replay") or job["replay"]
+        res = run_pool(dict(rp["job"], prop=prop, kind="pool"))
+        if "infra_error" in res:
+            return res
+        hit = res["mon_fail"]
+        return {"violated": bool(hit), "message": hit[0]["msg"] if hit else "no shell was shared in any explored schedule"}
     if job["kind"] == "replay":
         rp = job["replay"].get("replay") or job["replay"]
         j2 = dict(rp.get("job") or {})
